@@ -131,6 +131,45 @@ func init() {
 		}
 		ex.setBool("c06NewNodeShape", nnShape, nn != nil && nm != nil, "newNode: the rule's matchers in configured order (reverseMatcher iff '!'), E/RE from newExec of the same rule")
 
+		// Every path of newMatcher that hands out a matcher has to pass the
+		// reverse wiring, which is the last but one statement: count the
+		// return statements of newMatcher itself (not of nested function
+		// literals), other than the final one, whose first result is not the
+		// literal nil (a return that can deliver a matcher), plus gotos/labels
+		// (none expected: they could jump over the wiring).
+		early := int64(0)
+		var earlyWhere []string
+		tailOK := false
+		if nm != nil {
+			l := nm.Body.List
+			tailOK = len(l) >= 2 && ex.str(l[len(l)-2]) == "if mc.Reverse { m = reverseMatcher(m) }" && ex.str(l[len(l)-1]) == "return m, nil"
+			var last ast.Stmt
+			if len(l) > 0 {
+				last = l[len(l)-1]
+			}
+			ast.Inspect(nm.Body, func(n ast.Node) bool {
+				switch x := n.(type) {
+				case *ast.FuncLit:
+					return false
+				case *ast.ReturnStmt:
+					if ast.Stmt(x) == last {
+						return true
+					}
+					if len(x.Results) == 0 || ex.str(x.Results[0]) != "nil" {
+						early++
+						earlyWhere = append(earlyWhere, ex.str(x))
+					}
+				case *ast.BranchStmt:
+					if x.Tok.String() == "goto" {
+						early++
+						earlyWhere = append(earlyWhere, ex.str(x))
+					}
+				}
+				return true
+			})
+		}
+		ex.setNat("c06NewMatcherEarlyReturns", early, nm != nil && tailOK, "newMatcher: returns that can deliver a matcher (first result not nil) located before the final `if mc.Reverse { m = reverseMatcher(m) }; return m, nil`: "+strings.Join(earlyWhere, " | "))
+
 		ns := ex.fn(srel, "", "NewSequence")
 		se := ex.fn(srel, "Sequence", "Exec")
 		ex.setBool("c06NewSequenceShape", ns != nil && ex.str(ns.Body) == "{ s := &Sequence{} var rc []RuleConfig for _, ra := range ra { rc = append(rc, parseArgs(ra)) } if err := s.buildChain(bq, rc); err != nil { _ = s.Close() return nil, err } return s, nil }", ns != nil,
